@@ -687,15 +687,21 @@ func (se *SpecEnv) call(x *ast.CallExpr) (Val, error) {
 			return Val{}, err
 		}
 		fc.chanFact(p, se.qvars)
+		var t string
 		switch name {
 		case "sent":
-			return Val{T: sel(fc.compAt(se.st, "CN.sent", arraySort("Int")), p.T), S: SInt, Typ: tInt}, nil
+			t = sel(fc.compAt(se.st, "CN.sent", arraySort("Int")), p.T)
 		case "recvd":
-			return Val{T: sel(fc.compAt(se.st, "CN.recvd", arraySort("Int")), p.T), S: SInt, Typ: tInt}, nil
+			t = sel(fc.compAt(se.st, "CN.recvd", arraySort("Int")), p.T)
 		case "chancap":
-			return Val{T: sel(fc.compAt(se.st, "CN.cap", arraySort("Int")), p.T), S: SInt, Typ: tInt}, nil
+			t = sel(fc.compAt(se.st, "CN.cap", arraySort("Int")), p.T)
+		default:
+			t = sel(fc.compAt(se.st, "CN.closed", arraySort("Bool")), p.T)
+			se.notePattern(t)
+			return Val{T: t, S: SBool, Typ: tBool}, nil
 		}
-		return Val{T: sel(fc.compAt(se.st, "CN.closed", arraySort("Bool")), p.T), S: SBool, Typ: tBool}, nil
+		se.notePattern(t) // a quantifier over channels is instantiated where the counter of a channel is mentioned
+		return Val{T: t, S: SInt, Typ: tInt}, nil
 	case "failed":
 		p, err := se.expr(x.Args[0])
 		if err != nil {
@@ -1093,8 +1099,14 @@ func (se *SpecEnv) quantSort(kind string, x *ast.CallExpr) (Val, error) {
 		return Val{}, err
 	}
 	rng := "true"
-	switch t.Underlying().(type) {
-	case *types.Pointer, *types.Map, *types.Chan:
+	switch ut := t.Underlying().(type) {
+	case *types.Chan:
+		// a channel variable ranges over channel objects of its element type only
+		fc.vc.declareFun("typeOf", []string{"Int"}, "Int")
+		tid := fc.typeID(types.NewChan(types.SendRecv, ut.Elem()))
+		// (non-nil: reference 0 is outside every frame, and nothing is ever sent on a nil channel)
+		rng = "(and (< 0 " + m + ") (= (typeOf " + m + ") " + tid + "))"
+	case *types.Pointer, *types.Map:
 		rng = "(<= 0 " + m + ")"
 	case *types.Basic:
 		if b := t.Underlying().(*types.Basic); b.Kind() != types.Int && b.Kind() != types.Int64 {
